@@ -66,6 +66,14 @@ def run(facts, rep, tier, ctx):
         if o["rule"] == "M":
             rep.ob("R11.8", o["fn"], o["key"].split("|")[2], o["ok"], o["detail"], o["loc"])
     c10.marker_rules(facts, rep, ws, prefix="R11.8", only=("R10.1", "R10.5", "R10.3"))
+    # R11.15 the recursive operations see the tree through read_dir: on an overlay the listing merges every layer that has the
+    # directory (a merge that stops early lists a truncated tree: remove_dir_all / copy_dir / move_dir work on part of the subtree)
+    from . import c09 as _c09l
+    _c09l.listing_rules(facts, rep, ws, rule="R11.15/R09.4")
+    # R11.14 a transfer is complete when it returns: the destination handle of the generic copy has published its bytes by the time
+    # it is gone (flush / drop publish on every return — not "later", in a spawned task)
+    from ..handlerules import Handles as _H11
+    _H11(facts, False, D).writer_rules(rep, "R11.14/R04.1", "R11.14/R04.1", "R11.14/R04.1t")
     # "no trace of the source": after a move / remove_dir_all through an overlay the source must be gone for *every* observer, and
     # metadata / open_file / read_dir (hence a second transfer from the old path) go through the resolver without asking exists()
     # first — the resolver itself has to look at the path's deletion marker before any layer (C09 R09.3)
@@ -106,6 +114,8 @@ def run(facts, rep, tier, ctx):
                 A.ob("R11.8", o["fn"], o["key"].split("|")[2], o["ok"], o["detail"], o["loc"])
         k += c10.marker_rules(facts, A, wa, prefix="R11.8", only=("R10.1", "R10.5", "R10.3"))
         k += _c09r.resolver_rules(facts, A, wa, rule="R11.8r")
+        k += _c09l.listing_rules(facts, A, wa, rule="R11.15/R09.4")
+        _H11(facts, True, D).writer_rules(A, "R11.14/R04.1", "R11.14/R04.1", "R11.14/R04.1t")
         rep.floor("async-world transfer obligations", k, 120)
     # R11.11 a copy whose source is the embedded (read-only) backend copies what that backend lists and serves: its directory index
     # registers every ancestor of every file exactly once, under its own parent, and the observers answer from the index only
